@@ -12,6 +12,8 @@ UNITS = {
                   about="Popen::create / os_start / setup_streams / do_exec / set_inheritable / make_pipe against the spawn world (descriptor sets, child image, launch-status pipe)"),
     "builder": dict(template="units/builder.vt.rs", rlimit=300, portfolio=4,
                     about="Exec builder methods and terminators, stream adapters and their drop glue, Pipeline (composition, popen loop, join, capture, communicate, stream_*) against the builder world (log of started stages)"),
+    "exec": dict(template="units/exec.vt.rs", rlimit=100,
+                 about="posix::prep_exec / PrepExec::new / exec / assemble_exe: which program paths are tried, in which order, with what buffer capacity"),
     "pstate": dict(template="units/pstate.vt.rs", rlimit=50,
                    about="the Popen child-state machine (waitpid/wait/wait_timeout/poll/terminate/kill/send_signal/Drop) against the one-child process model"),
 }
@@ -23,13 +25,16 @@ PROPS = {
     "C03": dict(units=["comm"], kani=[], level="proof"),
     "C04": dict(units=["comm"], kani=[], level="proof"),
     "C05": dict(units=["spawn"], kani=["w_make_standard_stream", "w_dup2", "w_pipe", "w_set_inheritable"], level="proof"),
-    "C06": dict(units=["spawn"], kani=["w_fork_ids", "w_os_to_cstring_b4"], level="proof"),
-    "C07": dict(units=["spawn"], kani=["w_pipe", "w_fork_ids"], level="proof"),
+    "C06": dict(units=["spawn", "exec"], kani=["w_fork_ids", "w_os_to_cstring_b4"], level="proof"),
+    "C07": dict(units=["spawn", "exec"], kani=["w_pipe", "w_fork_ids"], level="proof"),
+    "C15": dict(units=["exec"], kani=["b_split_path_b3"], level="proof"),
+    "C17": dict(units=["spawn", "exec"], kani=[], level="proof"),
     "C18": dict(units=["spawn"], kani=["w_reset_sigpipe"], level="proof"),
     "C12": dict(units=["builder", "pstate"], kani=[], level="proof"),
     "C13": dict(units=["builder"], kani=[], level="proof"),
     "C14": dict(units=["builder"], kani=[], level="proof"),
     "C16": dict(units=["builder"], kani=[], level="proof"),
+    "C08": dict(units=["spawn", "builder"], kani=["w_pipe", "w_set_inheritable"], level="proof"),
     "C09": dict(units=["pstate"], kani=["w_decode_exit_status", "w_waitpid"], level="proof"),
     "C10": dict(units=["pstate"], kani=["w_kill"], level="proof"),
     "C11": dict(units=["pstate"], kani=[], level="proof"),
@@ -39,6 +44,12 @@ PROPS = {
 # (property, regex on obligation id) -> scenario binary (scenarios/src/bin/<name>.rs) and what it shows.
 # A scenario exits 1 and prints FAIL when the real crate, built from /repo's working tree, misbehaves.
 SCENARIOS = [
+    ("C15", r"exec:.*exec:.*(err is Err|r is Err)", "d10_path_only_empty_entries"),
+    ("C07", r"exec:.*exec:.*(err is Err|r is Err)", "d10_path_only_empty_entries"),
+    ("C17", r"exec:.*(cap@|capacity)", "d9_cwd_alloc"),
+    ("C08", r"kani:w_pipe:", "d11_concurrent_spawn_leak"),
+    ("C08", r"builder:.*(inh_ok|is_given_obj|inheritable)", "d6_pipeline_stderr_leak"),
+    ("C08", r"spawn:.*inheritable", "d11_concurrent_spawn_leak"),
     ("C12", r"builder:.*(drop_impl|drop_glue_read|drop_glue_popen).*", "d7_read_adapter_drop"),
     ("C14", r"builder:.*popen:precondition:drop_glue_vec_popen:.*all_wait_safe", "d8_pipeline_partial_failure"),
     ("C12", r"builder:.*popen:precondition:drop_glue_vec_popen:.*all_wait_safe", "d8_pipeline_partial_failure"),
@@ -53,6 +64,15 @@ SCENARIOS = [
 # --------------------------------------------------------------------------------------------- assumptions
 # free-text trusted base per unit (in addition to the mechanically listed external_body/axiom items)
 UNIT_TRUST = {
+    "exec": [
+        "exec world (units/models/execw.rs): segments(PATH) = the maximal non-empty colon-free runs (uninterpreted; split_path against it: bounded Kani harness b_split_path_b3, PATH of 3 bytes); "
+        "the iterator returned by split_path is modelled by SplitPath (R6: `for dir in split_path(p)` desugared to loop/match next())",
+        "R6: the Vec<u8> buffer prealloc_exe is represented by Buf with an explicit ghost capacity (std: a Vec does not reallocate while len <= capacity); mem::take = take_buf; "
+        "b\"/\" = slash(); max_segment_len = split_path(p).map(OsStr::len).max().unwrap_or(0); has_slash / nonempty_path_var = the iterator / Option adaptor expressions of prep_exec",
+        "R9: the closure `move || prep.exec()` returned by prep_exec is represented by the PrepExec value it captures",
+        "PrepExec::libc_exec (execve/execv through raw pointers) and CVec::new are shimmed by contract: exec returning means failure; NUL => Err",
+        "assemble_exe's contract covers at most three components (its two call sites pass one and three)",
+    ],
     "builder": [
         "builder world (units/models/buildw.rs, buildw_shims2.rs): Popen::create appends one stage recording what it was given and returns a Running handle holding a parent end exactly for Pipe streams (contract proved in unit spawn); wait/drop contracts restated from unit pstate; a blocking wait is assumed not to fail",
         "drop glue (units/models/buildw_glue.rs) is written per the Rust reference (own Drop::drop, then fields in declaration order; Vec elements in order); explicit drop elaboration is inserted at the `?`/return sites of Pipeline::popen, join and capture",
@@ -101,10 +121,11 @@ KANI = {
     "w_reset_sigpipe": dict(about="posix::reset_sigpipe: Ok => empty signal mask and SIGPIPE default, for every parent mask", tags=["C18"]),
     "w_poll_passthrough": dict(about="PollFd layout = libc::pollfd; poll() passes array, length and floor-ms timeout to libc::poll; test() reads revents (R6 seam of the comm unit)", tags=["C01", "C04"]),
     "w_dup2": dict(about="posix::dup2 pass-through", tags=["C05"]),
-    "w_pipe": dict(about="posix::pipe: two fresh descriptors of one new pipe, read end first, nothing leaked on failure", tags=["C05", "C07", "C08"]),
+    "w_pipe": dict(about="posix::pipe: two fresh descriptors of one new pipe, read end first, BOTH BORN close-on-exec (pipe2), nothing leaked on failure", tags=["C05", "C07", "C08"]),
     "w_fork_ids": dict(about="posix::fork/setuid/setgid/setpgid pass-through and result mapping", tags=["C06", "C07"]),
     "w_make_standard_stream": dict(about="make_standard_stream: handle on fd 0/1/2 whose drop never closes the descriptor", tags=["C05"]),
     "w_set_inheritable": dict(about="set_inheritable(f,false) = F_GETFD + F_SETFD(old|FD_CLOEXEC): descriptor becomes close-on-exec, other flags and other descriptors untouched; (f,true) is a no-op (R6 seam of the spawn unit)", tags=["C08", "C05"]),
+    "b_split_path_b3": dict(about="split_path yields exactly the maximal non-empty colon-free runs of PATH, in order", bounded="PATH values of exactly 3 bytes over {':','a','b'}", tags=["C15"]),
     "w_os_to_cstring_b4": dict(about="os_to_cstring: NUL => EINVAL, else bytes verbatim", bounded="strings of at most 4 bytes", tags=["C06"]),
 }
 KANI_TRUST = [
